@@ -119,6 +119,15 @@ def fixed_item_arrays():
     return out
 
 
+def optional_item_arrays():
+    """Arrays whose items are optionals of fixed-width numbers (every item carries its own presence flag on the wire)."""
+    out = []
+    for inner in (P("float32"), P("float64"), P("uint8"), P("int32"), P("complexfloat32")):
+        for c in (Arr(Opt(inner), None), Arr(Opt(inner), 2), Arr(Opt(inner), [2])):
+            out.append(c)
+    return out
+
+
 def shapes(depth, tier="quick"):
     """Ordered list of distinct shapes with <= depth nested constructors (simplest first)."""
     L = leaves()
@@ -161,6 +170,8 @@ def shapes(depth, tier="quick"):
                     add(mk_union([cs[j], cs[i]], null=True))
             # arrays whose items are fixed-size vectors / arrays of numbers (a depth-2 family with its own code path in every backend)
             for c in fixed_item_arrays():
+                add(c)
+            for c in optional_item_arrays():
                 add(c)
             reps = kind_representatives()
             for tri in itertools.combinations(reps, 3):
@@ -223,7 +234,9 @@ def quarantine_class(t):
             return False
         k = x[0]
         if k == "arr":
-            return not (scalar(x[1]) or fixed_of_scalars(x[1])) or has_bad_array(x[1])
+            # optionals of fixed-width numbers as items work in both languages (every item has its own presence flag)
+            opt_num = x[1][0] == "opt" and x[1][1][0] == "prim" and x[1][1][1] not in ("string", "date", "time", "datetime", "bool")
+            return not (scalar(x[1]) or fixed_of_scalars(x[1]) or opt_num) or has_bad_array(x[1])
         if k in ("opt", "vec", "stream"):
             return has_bad_array(x[1])
         if k == "map":
